@@ -2,7 +2,7 @@
 import ast
 import struct
 
-from sa.core import AnalysisError, unparse, walk_no_nested, stmt_text, call_name, bind_args, attr_chain, func_id
+from sa.core import flow_texts, AnalysisError, unparse, walk_no_nested, stmt_text, call_name, bind_args, attr_chain, func_id
 from sa.logic import path_condition
 from sa.abseval import ev, Unknown, track_block, Opaque
 from sa.consteval import ConstEnv
@@ -156,6 +156,14 @@ def run(repo, rep, tier):
             if isinstance(e, ast.Call):
                 fn = unparse(e.func)
                 return fn in ('bytes', 'bytearray') or (isinstance(e.func, ast.Attribute) and e.func.attr == 'encode') or fn.endswith('to_bytes')
+            if isinstance(e, ast.IfExp):
+                # x if isinstance(x, bytes) else <bytes-producing expression>   (and the mirrored form)
+                t = e.test
+                neg = isinstance(t, ast.UnaryOp) and isinstance(t.op, ast.Not)
+                c = t.operand if neg else t
+                if isinstance(c, ast.Call) and unparse(c.func) == 'isinstance' and len(c.args) == 2 and unparse(c.args[1]) == 'bytes':
+                    keep, conv = (e.orelse, e.body) if neg else (e.body, e.orelse)
+                    return unparse(keep) == unparse(c.args[0]) and makes_bytes(conv)
             return isinstance(e, ast.Constant) and isinstance(e.value, bytes)
 
         def converts(st):
@@ -180,13 +188,13 @@ def run(repo, rep, tier):
                       'write_string takes len(%s) while %s may still be a str: the prefix counts code points but the value is written as UTF-8, so a string with non-ASCII characters is followed by more bytes than announced and the rest of the message is misparsed' % (vname, vname),
                       witness=_dp(pth) if pth else None, stmt='write_string length prefix on bytes')
     rsq = F('readbuf', 'ReadBuf.read_string')
-    body = [unparse(s) for s in rsq.body]
-    rep.check('primitives', 'read_string = uint32 length + that many bytes', body == ['n = self.read_int()', 'return self.read(n)'], rsq, 'read_string body: %s' % body)
+    body = flow_texts(rsq)
+    rep.check('primitives', 'read_string = uint32 length + that many bytes', body == ['return self.read(self.read_int())'], rsq, 'read_string body: %s' % body)
     t = unparse(F('writebuf', 'WriteBuf.write_list'))
     rep.check('primitives', "write_list joins with ','", "self.write_string(','.join(v))" in t, F('writebuf', 'WriteBuf.write_list'), 'write_list changed')
     rl = F('readbuf', 'ReadBuf.read_list')
-    body = [unparse(s) for s in rl.body]
-    rep.check('primitives', "read_list = uint32 length + bytes, split on ','", body == ['list_size = self.read_int()', "return self.read(list_size).decode('utf-8', 'replace').split(',')"], rl, 'read_list body: %s' % body)
+    body = flow_texts(rl)
+    rep.check('primitives', "read_list = uint32 length + bytes, split on ','", body in (["return self.read(self.read_int()).decode('utf-8', 'replace').split(',')"], ["return self.read_string().decode('utf-8', 'replace').split(',')"]), rl, 'read_list body: %s' % body)
     t = unparse(F('writebuf', 'WriteBuf.write_bool'))
     rep.check('primitives', 'write_bool writes byte 1/0', 'self.write_byte(1 if v else 0)' in t, F('writebuf', 'WriteBuf.write_bool'), 'write_bool changed')
     t = unparse(F('readbuf', 'ReadBuf.read_bool'))
@@ -200,10 +208,10 @@ def run(repo, rep, tier):
     rep.check('primitives', 'read_mpint1 reads (bits + 7) // 8 bytes', 'n = (bits + 7) // 8' in t and 'self.read(n)' in t and 'self.read(2)' in t, r1, 'read_mpint1 length arithmetic changed')
     t = unparse(w1)
     rep.check('primitives', 'write_mpint1 writes the bit length of n and its unsigned bytes', 'bits = self._bitlength(n)' in t and 'self._create_mpint(n, False, bits)' in t, w1, 'write_mpint1 changed')
-    t = unparse(F('writebuf', 'WriteBuf.write_mpint2'))
-    rep.check('primitives', 'write_mpint2 = string of the signed big-endian bytes', 'self._create_mpint(n)' in t and 'self.write_string(data)' in t, F('writebuf', 'WriteBuf.write_mpint2'), 'write_mpint2 changed')
+    t = ' ; '.join(flow_texts(F('writebuf', 'WriteBuf.write_mpint2')))
+    rep.check('primitives', 'write_mpint2 = string of the signed big-endian bytes', 'self.write_string(self._create_mpint(n))' in t, F('writebuf', 'WriteBuf.write_mpint2'), 'write_mpint2 changed')
     t = unparse(F('readbuf', 'ReadBuf.read_mpint2'))
-    rep.check('primitives', 'read_mpint2 starts from read_string', 'v = self.read_string()' in t, F('readbuf', 'ReadBuf.read_mpint2'), 'read_mpint2 changed')
+    rep.check('primitives', 'read_mpint2 starts from read_string', 'self.read_string()' in t, F('readbuf', 'ReadBuf.read_mpint2'), 'read_mpint2 changed')
 
     # ---- rule 3: word composition -----------------------------------------------------------------------------------------------
     rb = repo.cls('readbuf', 'ReadBuf')
@@ -332,15 +340,21 @@ def run(repo, rep, tier):
     rep.check('framing', 'packet = header + payload + padding', ok, data[0] if data else sp, 'packet assembly changed')
     pb = [n for n in walk_no_nested(sp) if isinstance(n, ast.Assign) and unparse(n.targets[0]) == 'pad_bytes']
     rep.check('framing', 'padding bytes have the computed length', len(pb) == 1 and unparse(pb[0].value) in ("b'\\x00' * padding",), pb[0] if pb else sp, 'pad_bytes changed')
-    rp = F('ssh_socket', 'SSH_Socket.read_packet')
-    cs = [n for n in walk_no_nested(rp) if isinstance(n, ast.Assign) and unparse(n.targets[0]) == 'check_size']
-    vals = sorted(unparse(n.value) for n in cs)
-    rep.check('framing', 'reader counts length field + padding byte + payload + padding (SSH-2) and padding + payload (SSH-1)', vals == ['4 + 1 + payload_length + padding_length', 'padding_length + payload_length'], cs[0] if cs else rp, 'check_size expressions: %s' % vals)
-    chk = [n for n in walk_no_nested(rp) if isinstance(n, ast.If) and 'check_size' in unparse(n.test)]
-    rep.check('framing', 'reader rejects sizes that are not a multiple of its block size', len(chk) == 1 and unparse(chk[0].test) == 'check_size % self.__block_size != 0', chk[0] if chk else rp, 'block size test changed')
-    pl = [n for n in walk_no_nested(rp) if isinstance(n, ast.Assign) and unparse(n.targets[0]) == 'payload_length']
-    vals = sorted(unparse(n.value) for n in pl)
-    rep.check('framing', 'reader payload length = packet_length - padding_length - 1 (SSH-2)', 'packet_length - padding_length - 1' in vals, pl[0] if pl else rp, 'payload_length expressions: %s' % vals)
+    # reader: per protocol version the statements of read_packet are linearised and locals substituted forward (props/_framing.reader_model); what is tested
+    # against the block size and what is read as payload are linear forms over the values read from the wire -- whatever temporaries or helpers compute them
+    from props import _framing as _fr
+    rp, rmodel = _fr.reader_model(repo)
+    for proto, want_size, want_payload, what in ((2, ({'packet_length': 1}, 4), ({'packet_length': 1, 'padding_length': -1}, -1), 'length field + padding byte + payload + padding'),
+                                                 (1, ({'packet_length': 1, 'padding_length': 1}, 0), ({'packet_length': 1}, -4), 'padding + payload (with its CRC)')):
+        m = rmodel[proto]
+        sizes = [x[0] for x in m['block_tests']]
+        rep.check('framing', 'SSH-%d reader tests %s against its block size' % (proto, what), sizes == [want_size], m['block_tests'][0][2] if m['block_tests'] else rp,
+                  'SSH-%d reader: the size tested against the block size is %s, expected %s' % (proto, sizes, want_size), stmt='SSH-%d block size test' % proto, sample={'rule': 'framing', 'proto': proto, 'tested': repr(sizes)})
+        for lf, txt, node in m['block_tests']:
+            rep.check('framing', 'reader rejects sizes that are not a multiple of its block size (SSH-%d)' % proto, txt.replace(' ', '').endswith('%self.__block_size!=0'), node, 'block size test changed: %s' % txt)
+        pr = [l for nm, l in m['payload_reads'] if l == want_payload]
+        rep.check('framing', 'SSH-%d reader reads a payload of %s bytes' % (proto, 'packet_length - padding_length - 1' if proto == 2 else 'packet_length - 4'), len(pr) == 1, rp,
+                  'SSH-%d reader: payload read sizes are %s' % (proto, [l for nm, l in m['payload_reads']]), stmt='SSH-%d payload size' % proto)
     # CRC
     crc = repo.func('ssh1_crc32', 'SSH1_CRC32.__init__')
     rep.saw(crc)
@@ -350,8 +364,9 @@ def run(repo, rep, tier):
     cc = repo.func('ssh1_crc32', 'SSH1_CRC32.calc')
     t = unparse(cc)
     rep.check('crc', 'CRC update: crc = (crc >> 8) ^ table[(byte ^ crc) & 0xff]', 'n ^ crc & 255' in t and 'crc >> 8 ^ self._table[n]' in t, cc, 'CRC update step changed')
-    t = unparse(rp)
-    rep.check('crc', 'SSH-1 reader verifies the CRC over padding + payload', 'SSH1.crc32(padding + payload)' in t and 'crc != rcrc' in t, rp, 'SSH-1 CRC verification changed')
+    ct = rmodel[1]['crc_tests']
+    ok = len(ct) == 1 and ct[0][1] == 'NotEq' and 'SSH1.crc32(padding + payload)' in (ct[0][0], ct[0][2]) and any(x.startswith('WIRE_read_int_') for x in (ct[0][0], ct[0][2])) and not rmodel[2]['crc_tests']
+    rep.check('crc', 'SSH-1 reader verifies the CRC over padding + payload', ok, ct[0][3] if ct else rp, 'SSH-1 CRC verification changed: %s' % [(a, o, b) for a, o, b, n in ct])
 
     # ---- reader side of "packets are well framed": every packet the tool emits is read back unchanged only if read_packet consumes the whole
     # packet before returning (shared symbolic byte budget, props/_framing.py)
